@@ -9,6 +9,9 @@ from .sym import *
 def _wb(ex, node, new):
     """write a mutated container back to the l-value it came from: node is the Call, node.func.value the l-value"""
     ex.assign(node.func.value, new)
+    h = getattr(ex.spec, "on_mutation", None)
+    if h is not None:
+        h(ex, ex.site(node.func.value), node.func.attr, node, new)
 
 
 def method(ex, recv, name, args, kwargs, node):
